@@ -47,6 +47,7 @@ def obs(cs):
 
 
 def explore(chk):
+    absent_sub = chk.sub("vtt_absent_language")
     import pycaption
     rng = chk.rng
     N = 120 if chk.tier == "quick" else 4000
@@ -170,6 +171,17 @@ def explore(chk):
         chk.count("n"); chk.count("vtt_lang")
         if got != [t for (_, t) in dict(src)[l]]:
             chk.property_failure(dict(base_case, format="webvtt", lang=l, parsed=str(got)[:800]), "webvtt lang= does not write exactly the named language's cues")
+        # a language the set does not hold (a near miss included): no other language's cues are written under that name
+        absent_ = absent_sub.choice(["zz-ZZ", langs[0][:2], langs[0].upper(), langs[0] + " ", "x" + langs[-1]])
+        if absent_ not in langs:
+            chk.count("vtt_lang_absent")
+            try:
+                got_a = [" ".join(" ".join(ls).split()) for (_, ls) in textgen.parse_vtt(pycaption.WebVTTWriter().write(cs, lang=absent_))]
+            except Exception as e:
+                got_a = None
+            if got_a:
+                chk.property_failure(dict(base_case, format="webvtt", lang=absent_, parsed=str(got_a)[:800]),
+                                     "webvtt lang= naming a language the set does not hold writes another language's cues")
     # ---------------- SAMI: the language of a paragraph comes from its class (through the style sheet) or from a lang attribute
     for k_ in range(30 if chk.tier == "quick" else 600):
         second = rng.choice(["fr", "de", "es"])
